@@ -25,6 +25,9 @@ def gen_names(chk):
             for t in itertools.product(ALPHA, repeat=n):
                 if (len(names) + n) % (1 if not quick else 3) == 0:
                     names.append((0 if pre[0] != 0x2f else 1, pre + list(t)))
+    # names that look like the beginning of a URI (the reverse direction recognises prefixes of "file:///")
+    for w in ("file", "fil", "file:", "filename.txt", "files\\x", "file server\\share", "file\\x", "file:x", "file:/x", "file:\\x", "http:x", "File", "fi", "f"):
+        names.append((0, S(w))); names.append((1, S(w.replace("\\", "/"))))
     def seg(L): return [rng.choice(ALPHA[:2] + ALPHA[5:] + [rng.randint(1, 255)]) for _ in range(L)]
     def clean(x, bad): return [c for c in x if c not in bad]
     for _ in range(1500 if quick else 60000):
